@@ -485,7 +485,7 @@ fn loop_alphabet() -> Vec<(&'static str, Vec<String>)> {
 const END_LINE: &str = "{\"jsonrpc\":\"2.0\",\"id\":\"END\",\"method\":\"get_status\"}";
 
 /// One sequence through the real socket loop. Returns (responses, final config).
-fn socket_run(rt: &tokio::runtime::Runtime, sock_path: &str, cfg: &Cfg, alpha: &[(&'static str, Vec<String>)], seq: &[usize]) -> Result<(Vec<String>, Cfg), String> {
+fn socket_run(rt: &tokio::runtime::Runtime, sock_path: &str, cfg: &Cfg, alpha: &[(&'static str, Vec<String>)], seq: &[usize], unterminated_end: bool) -> Result<(Vec<String>, Cfg), String> {
     use tokio::io::{AsyncBufReadExt, AsyncWriteExt, BufReader};
     let c = cfg.make();
     let c2 = c.clone();
@@ -519,7 +519,12 @@ fn socket_run(rt: &tokio::runtime::Runtime, sock_path: &str, cfg: &Cfg, alpha: &
             }
         }
         wr.write_all(END_LINE.as_bytes()).await.map_err(|e| e.to_string())?;
-        wr.write_all(b"\n").await.map_err(|e| e.to_string())?;
+        if unterminated_end {
+            // the last request has no newline: the client half-closes instead (printf '{...}' | socat)
+            wr.shutdown().await.map_err(|e| e.to_string())?;
+        } else {
+            wr.write_all(b"\n").await.map_err(|e| e.to_string())?;
+        }
         let mut got = Vec::new();
         let mut line = String::new();
         let mut ended = false;
@@ -575,7 +580,15 @@ fn canon_json(s: &str) -> String {
 }
 
 fn socket_loop_one(rt: &tokio::runtime::Runtime, path: &str, cx: &Ctx, cfg: &Cfg, alpha: &[(&'static str, Vec<String>)], seq: &[usize]) -> Result<(), Fail> {
-    let (got, end_cfg) = socket_run(rt, path, cfg, alpha, seq).map_err(|e| Fail::new("MACHINERY", e))?;
+    socket_loop_variant(rt, path, cx, cfg, alpha, seq, false)?;
+    if seq.len() <= 2 {
+        socket_loop_variant(rt, path, cx, cfg, alpha, seq, true)?;
+    }
+    Ok(())
+}
+
+fn socket_loop_variant(rt: &tokio::runtime::Runtime, path: &str, cx: &Ctx, cfg: &Cfg, alpha: &[(&'static str, Vec<String>)], seq: &[usize], unterminated_end: bool) -> Result<(), Fail> {
+    let (got, end_cfg) = socket_run(rt, path, cfg, alpha, seq, unterminated_end).map_err(|e| Fail::new("MACHINERY", e))?;
     let (want, want_cfg) = reference_run(cx, cfg, alpha, seq);
     let names: Vec<&str> = seq.iter().map(|i| alpha[*i].0).collect();
     // get_subscription_count and get_status carry no connection-specific data here; compare canonically
@@ -584,7 +597,7 @@ fn socket_loop_one(rt: &tokio::runtime::Runtime, path: &str, cx: &Ctx, cfg: &Cfg
     if g != w {
         return Err(Fail::new(
             "socket-loop-answers-differ-from-dispatch",
-            format!("lines {names:?} (start config {cfg:?}): the control socket answered {got:?}, the dispatcher answers {want:?} to the same lines"),
+            format!("lines {names:?}{} (start config {cfg:?}): the control socket answered {got:?}, the dispatcher answers {want:?} to the same lines", if unterminated_end { ", closing request without a trailing newline before the client half-closes" } else { "" }),
         ));
     }
     if format!("{end_cfg:?}") != format!("{want_cfg:?}") {
@@ -594,6 +607,130 @@ fn socket_loop_one(rt: &tokio::runtime::Runtime, path: &str, cx: &Ctx, cfg: &Cfg
         ));
     }
     Ok(())
+}
+
+/// A request that reaches the socket in two chunks while the connection holds a subscription and an event
+/// is pushed between the chunks: the request is still answered once, with its id. Every split point of the
+/// request line x {no push, one push, two pushes} between the chunks.
+fn socket_push_between_chunks(rep: &mut Report) {
+    use tokio::io::{AsyncBufReadExt, AsyncWriteExt, BufReader};
+    let request = "{\"jsonrpc\":\"2.0\",\"id\":42,\"method\":\"set_conn_timeout\",\"params\":{\"ms\":7000}}";
+    let dir = crate::evidence::verif_root().join("target");
+    let path = dir.join(format!(".c18-push-{}.sock", std::process::id()));
+    let path = path.to_str().unwrap().to_string();
+    let rt = tokio::runtime::Builder::new_current_thread().enable_all().build().expect("runtime");
+    let mut runs = 0u64;
+    let mut first_fail: Option<(usize, usize, String)> = None;
+    let mut fails = 0u64;
+    let one = |split: usize, pushes: usize| -> Result<Option<String>, String> {
+        let path = path.clone();
+        rt.block_on(async move {
+            let _ = std::fs::remove_file(&path);
+            let cfg = DynamicConfig::new();
+            let hub = SubscriptionHub::new();
+            let server = srtla_send::control_socket::spawn(path.clone(), cfg.clone(), SharedStats::new(), CriticalWindow::new(), hub.clone());
+            let mut stream = None;
+            for _ in 0..2000 {
+                match tokio::net::UnixStream::connect(&path).await {
+                    Ok(s) => {
+                        stream = Some(s);
+                        break;
+                    }
+                    Err(_) => tokio::time::sleep(std::time::Duration::from_millis(1)).await,
+                }
+            }
+            let Some(stream) = stream else {
+                server.abort();
+                return Err("control socket did not come up".to_string());
+            };
+            let (rd, mut wr) = stream.into_split();
+            let mut rd = BufReader::new(rd);
+            let mut line = String::new();
+            wr.write_all(b"{\"jsonrpc\":\"2.0\",\"id\":1,\"method\":\"subscribe\",\"params\":{\"topic\":\"stats\"}}\n").await.map_err(|e| e.to_string())?;
+            match tokio::time::timeout(std::time::Duration::from_secs(3), rd.read_line(&mut line)).await {
+                Ok(Ok(n)) if n > 0 && line.contains("\"result\"") => {}
+                other => {
+                    server.abort();
+                    return Err(format!("subscribe was not answered: {other:?} {line:?}"));
+                }
+            }
+            line.clear();
+            wr.write_all(request[..split].as_bytes()).await.map_err(|e| e.to_string())?;
+            wr.flush().await.ok();
+            tokio::time::sleep(std::time::Duration::from_millis(2)).await;
+            for k in 0..pushes {
+                hub.publish("stats", json!({"n": k})).await;
+                tokio::time::sleep(std::time::Duration::from_millis(2)).await;
+            }
+            wr.write_all(request[split..].as_bytes()).await.map_err(|e| e.to_string())?;
+            wr.write_all(b"\n").await.map_err(|e| e.to_string())?;
+            // read until the answer to id 42 (or a parse error with a null id), skipping pushed events
+            let mut verdict: Option<String> = None;
+            let mut answers = 0;
+            for _ in 0..(pushes + 3) {
+                line.clear();
+                // until the answer has come: wait for it; after that: a short grace period for a second one
+                let wait = if answers == 0 { 600 } else { 25 };
+                match tokio::time::timeout(std::time::Duration::from_millis(wait), rd.read_line(&mut line)).await {
+                    Ok(Ok(n)) if n > 0 => {
+                        let v: Value = serde_json::from_str(line.trim()).unwrap_or(Value::Null);
+                        if v.get("method").is_some() {
+                            continue; // a pushed event
+                        }
+                        answers += 1;
+                        if v["id"] != 42 || v["result"]["ms"] != 7000 {
+                            verdict = Some(format!("answered {}", line.trim()));
+                        }
+                    }
+                    _ => break,
+                }
+            }
+            server.abort();
+            let _ = std::fs::remove_file(&path);
+            if verdict.is_none() && answers != 1 {
+                verdict = Some(format!("{answers} answers"));
+            }
+            if verdict.is_none() && cfg.snapshot().conn_timeout_ms != 7000 {
+                verdict = Some("answered, but the timeout was not applied".into());
+            }
+            Ok(verdict)
+        })
+    };
+    for split in 1..request.len() {
+        for pushes in 0..=2usize {
+            runs += 1;
+            match one(split, pushes) {
+                Ok(None) => {}
+                Ok(Some(bad)) => {
+                    // confirm before it counts
+                    if matches!(one(split, pushes), Ok(Some(_))) {
+                        fails += 1;
+                        if first_fail.is_none() {
+                            first_fail = Some((split, pushes, bad));
+                        }
+                    } else if rep.machinery_errors.len() < 3 {
+                        rep.machinery_errors.push(format!("socket push-between-chunks: split {split}, {pushes} pushes: '{bad}' did not reproduce"));
+                    }
+                }
+                Err(e) => {
+                    if rep.machinery_errors.len() < 3 {
+                        rep.machinery_errors.push(format!("socket push-between-chunks: {e}"));
+                    }
+                }
+            }
+        }
+    }
+    rep.traces += runs;
+    rep.transitions += runs * 4;
+    rep.set("socket_push_between_chunks", json!({"request_bytes": request.len(), "split_points": request.len() - 1, "pushes_between_the_chunks": [0, 1, 2], "runs": runs}));
+    if let Some((split, pushes, bad)) = first_fail {
+        rep.add_violation(Violation {
+            key: "socket-request-in-two-chunks-lost-across-a-push".into(),
+            message: format!("a set_conn_timeout request (id 42) written to the control socket in two chunks (first {split} bytes, then the rest) on a connection subscribed to 'stats', with {pushes} event(s) published between the chunks, was {bad} instead of answered once with id 42 ({fails} of {runs} split/push combinations fail)"),
+            replay: json!({"exploration": "socket-push-between-chunks", "split": split, "pushes": pushes}),
+        });
+        rep.count_violation("socket-request-in-two-chunks-lost-across-a-push", fails.saturating_sub(1));
+    }
 }
 
 fn socket_loop_exploration(rep: &mut Report, depth: usize) {
@@ -957,6 +1094,7 @@ pub fn run(tier: Tier) -> Report {
     // ---- (4) the real connection loop of the control socket
     progress("C18", "line sequences through the real control socket");
     socket_loop_exploration(&mut rep, if tier.is_quick() { 3 } else { 4 });
+    socket_push_between_chunks(&mut rep);
     rep.states += outcomes.lock().unwrap().len() as u64;
     rep.samples.push(json!({"line": lines[lines.len() / 2].text, "shape": format!("{:?}", lines[lines.len() / 2].shape)}));
     rep.samples.push(json!({"command_sequence": [COMMANDS[6], COMMANDS[9], COMMANDS[11]]}));
@@ -976,6 +1114,14 @@ pub fn run(tier: Tier) -> Report {
 
 pub fn replay(v: &Value) -> Result<(), String> {
     let cx = Ctx { stats: SharedStats::new(), crit: CriticalWindow::new() };
+    if v["exploration"] == "socket-push-between-chunks" {
+        let mut r = Report::new();
+        socket_push_between_chunks(&mut r);
+        return match r.violations.first() {
+            None => Ok(()),
+            Some(x) => Err(format!("[{}] {}", x.key, x.message)),
+        };
+    }
     if v["exploration"] == "socket-loop" {
         let alpha = loop_alphabet();
         let cfgs = start_configs();
